@@ -187,6 +187,18 @@ CHECKS["C11"] = ("DESIGN.md C11",
     "one instance, module code cannot see importer variables, cycles are errors, private names are "
     "unreachable. Finite-domain enumeration driven by the solver.")
 
+CHECKS["C09"] = ("DESIGN.md C09",
+    "bind_native(name[, alias]) through the interpreter with the native name symbolic over all 122 "
+    "names the binder knows plus unknown spellings, 5 alias spellings, and symbolic secure/legacy "
+    "constructor flags: in every secure path no OS-touching function value may be reachable from the "
+    "environments afterwards, `run` stays unbound, the flag stays TRUE. OS-touching is computed by an "
+    "AST scan of each built-in class (open/subprocess/shutil/FileInput/FileOutput/os.* outside an "
+    "allow list/interpreter access), not read from the secure attribute. 25 syntactic ways of "
+    "defining or assigning a name x 3 identifiers (incl. checkerlang_secure_mode): afterwards the "
+    "binder still refuses 12 OS natives and module code still refuses to read files. The reachable-"
+    "value closure over all bundled modules is a concrete graph walk; that no OS call happens at run "
+    "time is not a solver question. Level claimed is modest.")
+
 NA = {}
 
 
